@@ -12,6 +12,7 @@ import (
 	_ "mltwist/internal/consoleui/verifsim/loadsim"
 	_ "mltwist/internal/consoleui/verifsim/memsim"
 	_ "mltwist/internal/consoleui/verifsim/movesim"
+	_ "mltwist/internal/consoleui/verifsim/uisim"
 )
 
 func main() {
